@@ -4,7 +4,9 @@ $(eval $(call HARNESS,c13_ranlux,$(V)/harness/C13/c13_ranlux.cpp,plain,$(if $(C1
 $(eval $(call HARNESS,c13_runs,$(V)/harness/C13/c13_runs.cpp,plain,,))
 # the simulation object / photon source / re-emission classes used repeatedly inside one process
 $(eval $(call HARNESS,c13_inproc,$(V)/harness/C13/c13_inproc.cpp,plain,-fno-access-control,))
-$(B)/bin/c13_runs $(B)/bin/c13_inproc: $(V)/harness/C13/c13_problem.hpp
+# the seed of the parameter file as part of the alphabet (white box on the simulation object, whole runs, injection)
+$(eval $(call HARNESS,c13_simseed,$(V)/harness/C13/c13_simseed.cpp,plain,-fno-access-control,))
+$(B)/bin/c13_runs $(B)/bin/c13_inproc $(B)/bin/c13_simseed: $(V)/harness/C13/c13_problem.hpp
 # preload shim giving both runs of a pair the same calendar time (snapshot "Creation time")
 $(B)/bin/c13_fixedtime.so: $(V)/harness/C13/c13_fixedtime.c
 	@mkdir -p $(B)/bin
